@@ -140,3 +140,8 @@ def run(repo: Repo, rep: Report, tier: str) -> None:
     from ..core.report import Only
     from . import c14 as _c14
     _c14._ownership(repo, Only(rep, {"R14.8", "R14.9"}))
+
+
+_ADDENDUM = ' Borrowed: R14.8 / R14.9 (no write into borrowed containers, no builder store shared across codecs).'
+EXPLANATION += _ADDENDUM
+LEVEL_TEXT += _ADDENDUM
